@@ -22,7 +22,11 @@ func ZZ_C05_RelationShape() {
 		ing := vf_Choose("dir", 2) == 0
 		p1 := vf_Int32N("prio.a", 10)
 		vf_Assume(p1 <= 1000)
-		g.addANP(g.zzGenANPx("anp0", p1, ing, 1+vf_Choose("anp0.nrules", 2), 2, 2, 3))
+		nRules := 1 // quick: one ANP rule and the BANP, every action, ports all / UDP n + TCP m / TCP range (symbolic)
+		if vf_Tier() > 0 {
+			nRules = 1 + vf_Choose("anp0.nrules", 2)
+		}
+		g.addANP(g.zzGenANPx("anp0", p1, ing, nRules, 1+vf_Tier(), 1+vf_Tier(), 3))
 		if vf_Choose("banp", 2) == 1 {
 			g.addBANP(g.zzGenBANPx(ing, 1, 1, 1, 3))
 		}
